@@ -213,7 +213,10 @@ pub fn eval(sc: &Scenario) -> Verdict {
         }
         let (mut dir, mut n) = match sched.next() {
             Some((d, n)) => (*d, *n as usize),
-            None => (steps % 2 == 0, drain),
+            // draining: the generated piece size, but never so small that a long queue needs more
+            // than a few hundred deliveries (window 0 / 1 make every delivery trigger an
+            // acknowledgement, which would otherwise multiply the traffic without bound)
+            None => (steps % 2 == 0, drain.max(1 + w.c2s.len().max(w.s2c.len()) / 200)),
         };
         if dir && w.c2s.is_empty() {
             dir = false;
